@@ -32,6 +32,9 @@ proof {
     lemma_heap_free_list(b0, pm, w0, c);
     assert(head_of(pm, b0, piece_size as nat) == head_at(pm, b0, c));
     assert(w0.lists[c].len() < u64::MAX);
+    assert(locked.0@.bytes == b0 && locked.0.piece_mgr == pm);
+    // the witness of the callee's `exists`
+    assert(free_list(locked.0@.bytes, head_of(locked.0.piece_mgr, locked.0@.bytes, piece_size as nat), w0.lists[c]) && w0.lists[c].len() < u64::MAX);
 }
 @after-call count_of_free_piece_list 1
 proof {
@@ -83,6 +86,9 @@ proof {
     lemma_heap_free_list(b0, pm, w0, c);
     assert(head_of(pm, b0, piece_size as nat) == head_at(pm, b0, c));
     assert(w0.lists[c].len() < u64::MAX);
+    assert(locked.0@.bytes == b0 && locked.0.piece_mgr == pm);
+    // the witness of the callee's `exists`
+    assert(free_list(locked.0@.bytes, head_of(locked.0.piece_mgr, locked.0@.bytes, piece_size as nat), w0.lists[c]) && w0.lists[c].len() < u64::MAX);
 }
 @after-call count_of_free_piece_list 1
 proof {
